@@ -59,6 +59,11 @@ CHECKS.update({
          'Seeded mailboxes of generated messages (flags, keywords, sizes, internal and sent dates in several time zones around midnight, header and body vocabulary) are searched with seeded programs to nesting depth 4 over every supported key; an evaluator written from RFC 3501 6.4.4, independent of pymap.search, gives the expected set over the session\'s view (hidden expunged messages may be in or out), UID and sequence results are mapped through the shadow, and logically equivalent rewrites must return the same set.',
          'Trusted: the evaluator in profiles/c13.py; two readings of "disregarding time and timezone" are accepted; needles are alphanumeric so that header-value vs parsed-address matching cannot differ.'),
 })
+CHECKS.update({
+ 'C03': ('exploration', '4/C03', 'seeded input generation of message byte strings executed in the simulator (literal kinds, chunked delivery, MULTIAPPEND, concurrent COPY/MOVE); byte-equality oracle with diagnosis',
+         'Seeded byte strings (structured generator over header/separator/line-ending/MIME shapes, hostile generators, raw bytes, up to 64 KiB, byte mutations) are appended through the simulated connection with {n} or {n+} literals and seeded chunking, optionally copied or moved by a second session while the first fetches; BODY[], RFC822, RFC822.SIZE, BODY[HEADER]+BODY[TEXT], partial ranges and the octet counts of every leaf part in BODYSTRUCTURE are compared with the appended bytes for the source and the copy.',
+         'The statement is a function of the input bytes and the backend; the simulator contributes the delivery path, storage and the second session, the deciding step is seeded input generation. Trusted: the strict response parser that extracts literals.'),
+})
 NOT_YET = {}
 def main():
     props = [json.loads(l) for l in open(os.path.join(ROOT, 'properties.jsonl'))]
